@@ -334,7 +334,9 @@ def oracle(obs, cfg, sched):
         sysb = mine[0]["system"]
         res = c["result"]
         how = replied.get(sysb)
-        in_time = how is not None and how[0] != "late"
+        # in time = written by the peer before the caller's T3 ran out (a reply the peer only flushes when everybody has given up, at the very
+        # instant of the time-out, is causally after it)
+        in_time = how is not None and how[0] != "late" and how[1] < mine[0]["t"] + T3 - 1e-9
         dup_sys = systems.count(sysb) > 1
         if res is None:
             if in_time and not dup_sys:
